@@ -7,7 +7,6 @@ From FpyV Require Import Num.RealFloat Num.RealFloatProofs Num.RoundSpec Num.Rou
   Lang.Lowering.Lower Lang.Lowering.LowerProofs Lang.Lowering.LowerUOProofs.
 Import ListNotations.
 Open Scope Z_scope.
-Set Default Timeout 120.
 
 (* ---------------------------------------------------------------- a float rounding is a fixed-point rounding at the computed position *)
 (* RealFloat.round with a precision p and a floor nmin, and RealFloat.round
@@ -396,6 +395,16 @@ Lemma f2f_pos_clamped' p em expmin expmax e : expmax < e - p + 1 ->
   f2f_pos p (Some (em, expmin)) (Some expmax) e = expmax.
 Proof. unfold f2f_pos. lia. Qed.
 
+Lemma f2f_position_exact p emin expmax e :
+  (e < emin -> (emin - p + 1) - 1 = Z.max (mps_nmin p emin) (e - p)) /\
+  (emin <= e -> e - p + 1 <= expmax ->
+     f2f_pos p (Some (emin, emin - p + 1)) (Some expmax) e - 1 = Z.max (mps_nmin p emin) (e - p)) /\
+  (expmax < e - p + 1 -> f2f_pos p (Some (emin, emin - p + 1)) (Some expmax) e = expmax).
+Proof.
+  split; [exact (f2f_pos_sub p emin e)|].
+  split; [exact (f2f_pos_normal p emin expmax e)|exact (f2f_pos_clamped' p emin (emin - p + 1) expmax e)].
+Qed.
+
 (* what the float constructors guarantee *)
 Definition f2f_ctx_ok (c : ctx) : Prop :=
   match c with
@@ -485,15 +494,15 @@ Proof.
   destruct c; try discriminate; cbn [f2f_parts] in Hd; cbv beta zeta iota in Hd.
   - (* MPFloat *)
     destruct k as [[| |]|]; try discriminate. cbn [f2f_ctx_ok] in Hok.
-    destruct (vround (CMPFloat pmax rm (Some 0) sp) pos_nan) as [a|] eqn:Ea; [|discriminate].
-    destruct (vround (CMPFloat pmax rm (Some 0) sp) pos_inf) as [b|] eqn:Eb; [|discriminate].
-    destruct (vround (CMPFloat pmax rm (Some 0) sp) (FInf true)) as [b'|] eqn:Eb'; [|discriminate].
-    destruct (vround (CMPFloat pmax rm (Some 0) sp) pos_zero) as [z|] eqn:Ez; [|discriminate].
-    destruct (vround (CMPFloat pmax rm (Some 0) sp) (FFin (RF true 0 0))) as [z'|] eqn:Ez'; [|discriminate].
+    destruct (vround (CMPFloat pmax rm (Some 0) sp) pos_nan) as [a|] eqn:Ea; cbv iota in Hd; [|discriminate].
+    destruct (vround (CMPFloat pmax rm (Some 0) sp) pos_inf) as [b|] eqn:Eb; cbv iota in Hd; [|discriminate].
+    destruct (vround (CMPFloat pmax rm (Some 0) sp) (FInf true)) as [b'|] eqn:Eb'; cbv iota in Hd; [|discriminate].
+    destruct (vround (CMPFloat pmax rm (Some 0) sp) pos_zero) as [z|] eqn:Ez; cbv iota in Hd; [|discriminate].
+    destruct (vround (CMPFloat pmax rm (Some 0) sp) (FFin (RF true 0 0))) as [z'|] eqn:Ez'; cbv iota in Hd; [|discriminate].
     injection Hd as <-. rewrite sem_f2f_lp.
     destruct x as [r|sg|sg].
     + destruct (is_zero r) eqn:Hz.
-      * rewrite (vround_zero _ r ltac:(discriminate) Hz). cbn [ff_nz ff_pz].
+      * rewrite (vround_zero (CMPFloat pmax rm (Some 0) sp) r ltac:(discriminate) Hz). cbn [ff_nz ff_pz].
         destruct (rs r); [rewrite Ez'|fold zero_rf; fold pos_zero; rewrite Ez]; apply vequiv_refl.
       * assert (Hnz : rc r <> 0) by (unfold is_zero in Hz; apply Z.eqb_neq; exact Hz).
         cbn [ff_em ff_pmax ff_expmax]. cbv zeta.
@@ -512,15 +521,15 @@ Proof.
       rewrite Ea. apply vequiv_refl.
   - (* MPSFloat *)
     destruct k as [[| |]|]; try discriminate. cbn [f2f_ctx_ok] in Hok.
-    destruct (vround (CMPSFloat pmax emin rm (Some 0) sp) pos_nan) as [a|] eqn:Ea; [|discriminate].
-    destruct (vround (CMPSFloat pmax emin rm (Some 0) sp) pos_inf) as [b|] eqn:Eb; [|discriminate].
-    destruct (vround (CMPSFloat pmax emin rm (Some 0) sp) (FInf true)) as [b'|] eqn:Eb'; [|discriminate].
-    destruct (vround (CMPSFloat pmax emin rm (Some 0) sp) pos_zero) as [z|] eqn:Ez; [|discriminate].
-    destruct (vround (CMPSFloat pmax emin rm (Some 0) sp) (FFin (RF true 0 0))) as [z'|] eqn:Ez'; [|discriminate].
+    destruct (vround (CMPSFloat pmax emin rm (Some 0) sp) pos_nan) as [a|] eqn:Ea; cbv iota in Hd; [|discriminate].
+    destruct (vround (CMPSFloat pmax emin rm (Some 0) sp) pos_inf) as [b|] eqn:Eb; cbv iota in Hd; [|discriminate].
+    destruct (vround (CMPSFloat pmax emin rm (Some 0) sp) (FInf true)) as [b'|] eqn:Eb'; cbv iota in Hd; [|discriminate].
+    destruct (vround (CMPSFloat pmax emin rm (Some 0) sp) pos_zero) as [z|] eqn:Ez; cbv iota in Hd; [|discriminate].
+    destruct (vround (CMPSFloat pmax emin rm (Some 0) sp) (FFin (RF true 0 0))) as [z'|] eqn:Ez'; cbv iota in Hd; [|discriminate].
     injection Hd as <-. rewrite sem_f2f_lp.
     destruct x as [r|sg|sg].
     + destruct (is_zero r) eqn:Hz.
-      * rewrite (vround_zero _ r ltac:(discriminate) Hz). cbn [ff_nz ff_pz].
+      * rewrite (vround_zero (CMPSFloat pmax emin rm (Some 0) sp) r ltac:(discriminate) Hz). cbn [ff_nz ff_pz].
         destruct (rs r); [rewrite Ez'|fold zero_rf; fold pos_zero; rewrite Ez]; apply vequiv_refl.
       * assert (Hnz : rc r <> 0) by (unfold is_zero in Hz; apply Z.eqb_neq; exact Hz).
         cbn [ff_em ff_pmax ff_expmax]. cbv zeta.
@@ -552,11 +561,11 @@ Proof.
     destruct (rexp pos_max <? rf_e pos_max - pmax + 1); [discriminate|].
     destruct (f2f_policy _ pos_max neg_max) as [pol|] eqn:Hpol; [|discriminate].
     set (c := CMPBFloat pmax emin pos_max neg_max rm ov (Some 0) sp) in *.
-    destruct (vround c pos_nan) as [a|] eqn:Ea; [|discriminate].
-    destruct (vround c pos_inf) as [b|] eqn:Eb; [|discriminate].
-    destruct (vround c (FInf true)) as [b'|] eqn:Eb'; [|discriminate].
-    destruct (vround c pos_zero) as [z|] eqn:Ez; [|discriminate].
-    destruct (vround c (FFin (RF true 0 0))) as [z'|] eqn:Ez'; [|discriminate].
+    destruct (vround c pos_nan) as [a|] eqn:Ea; cbv iota in Hd; [|discriminate].
+    destruct (vround c pos_inf) as [b|] eqn:Eb; cbv iota in Hd; [|discriminate].
+    destruct (vround c (FInf true)) as [b'|] eqn:Eb'; cbv iota in Hd; [|discriminate].
+    destruct (vround c pos_zero) as [z|] eqn:Ez; cbv iota in Hd; [|discriminate].
+    destruct (vround c (FFin (RF true 0 0))) as [z'|] eqn:Ez'; cbv iota in Hd; [|discriminate].
     injection Hd as <-.
     destruct (mirror_facts pos_max neg_max Wp Wn Sp Cp Hmir) as (Hm & Sn & Cn).
     apply (bounded_assembly c (CMPSFloat pmax emin rm (Some 0) sp_default) pos_max neg_max pmax emin rm
@@ -583,11 +592,11 @@ Proof.
     destruct (rexp mv <? rf_e mv - p0 + 1); [discriminate|].
     destruct (f2f_policy _ mv (neg_rf mv)) as [pol|] eqn:Hpol; [|discriminate].
     set (c := CEFloat es nbits enable_inf nk eoffset rm ov (Some 0) nan_value inf_value) in *.
-    destruct (vround c pos_nan) as [a|] eqn:Ea; [|discriminate].
-    destruct (vround c pos_inf) as [b|] eqn:Eb; [|discriminate].
-    destruct (vround c (FInf true)) as [b'|] eqn:Eb'; [|discriminate].
-    destruct (vround c pos_zero) as [z|] eqn:Ez; [|discriminate].
-    destruct (vround c (FFin (RF true 0 0))) as [z'|] eqn:Ez'; [|discriminate].
+    destruct (vround c pos_nan) as [a|] eqn:Ea; cbv iota in Hd; [|discriminate].
+    destruct (vround c pos_inf) as [b|] eqn:Eb; cbv iota in Hd; [|discriminate].
+    destruct (vround c (FInf true)) as [b'|] eqn:Eb'; cbv iota in Hd; [|discriminate].
+    destruct (vround c pos_zero) as [z|] eqn:Ez; cbv iota in Hd; [|discriminate].
+    destruct (vround c (FFin (RF true 0 0))) as [z'|] eqn:Ez'; cbv iota in Hd; [|discriminate].
     injection Hd as <-. destruct Hsub as [Hnv Hiv].
     destruct (mirror_facts mv (neg_rf mv) Wp Wn Sp Cp Hmir) as (Hm & Sn & Cn).
     apply (bounded_assembly c (CMPSFloat p0 em rm (Some 0) sp_default) mv (neg_rf mv) p0 em rm
